@@ -30,6 +30,8 @@ func Or(a, b bool) bool                          { sym(); return false }
 func Implies(a, b bool) bool                     { sym(); return false }
 // IsLowerASCII: s is pure ASCII without upper-case letters.
 func IsLowerASCII(s string) bool                 { sym(); return false }
+// Deref returns the value a pointer (held in an interface) points to, as an interface value.
+func Deref(p interface{}) interface{}            { sym(); return nil }
 func Assume(b bool)                              { sym() }
 func Assert(b bool, id string)                   { sym() }
 func Cover(id string)                            { sym() }
